@@ -42,7 +42,7 @@ RULE = ("Hypothesis draws an EXPRESS file (1-3 schemas, codegen profile with eve
 
 TIMEOUT = 120         # shipped schemas
 TIMEOUT_GEN = 30      # generated files (they take ~30 ms); a hit is reported as inconclusive, never as a verdict
-TOOLS = ("exp2cxx", "exp2python", "exppp", "schema_scanner")
+TOOLS = ("exp2cxx", "exp2python", "exppp", "exppp-o", "schema_scanner")
 SIG_F8 = "exp2cxx:aggregate-bound-printed-from-pointer"
 EXCL_F8 = "aggregate bound given by a CONSTANT or by an entity attribute (open finding: exp2cxx prints a pointer as SetBound value)"
 
@@ -115,7 +115,9 @@ def run_tool(tool, text, stem, cfg, wd, idx, timeout=TIMEOUT_GEN):
         for i in range(n):
             env["C12PAD%04d" % i] = "x" * 1000
     pre = ["setarch", ARCH, "-R"] if cfg["aslr_off"] else []
-    exe = c17run.TOOLS[tool]
+    # "exppp-o" is the pretty printer with -o FILE (one output file chosen by the caller instead of <schema>.exp per schema)
+    exe = c17run.TOOLS["exppp" if tool == "exppp-o" else tool]
+    xargs = ["-o", "pretty_out.exp"] if tool == "exppp-o" else []
     if cfg["earlier"]:
         sib = os.path.join(os.path.dirname(cwd), "sibling")
         os.makedirs(sib, exist_ok=True)
@@ -125,10 +127,10 @@ def run_tool(tool, text, stem, cfg, wd, idx, timeout=TIMEOUT_GEN):
         common.run([exe, oe], cwd=sib, timeout=timeout, env=env)
         shutil.rmtree(sib, ignore_errors=True)
     if cfg["dirty"]:
-        rc0, _o, _e, _t = common.run(pre + [exe, arg], cwd=cwd, timeout=timeout, env=env)
+        rc0, _o, _e, _t = common.run(pre + [exe] + xargs + [arg], cwd=cwd, timeout=timeout, env=env)
         if rc0 is None:
             return {"rc": None, "tree": {}, "stdout": ""}
-    rc, out, err, _t = common.run(pre + [exe, arg], cwd=cwd, timeout=timeout, env=env)
+    rc, out, err, _t = common.run(pre + [exe] + xargs + [arg], cwd=cwd, timeout=timeout, env=env)
     if rc is None:
         return {"rc": None, "tree": {}, "stdout": ""}
     tree = read_tree(cwd)
